@@ -118,7 +118,9 @@ func shortName(fn *ssa.Function) string {
 }
 
 func replaceWord(s, old, new string) string {
-	isW := func(c byte) bool { return c == '_' || c >= '0' && c <= '9' || c >= 'a' && c <= 'z' || c >= 'A' && c <= 'Z' }
+	isW := func(c byte) bool {
+		return c == '_' || c >= '0' && c <= '9' || c >= 'a' && c <= 'z' || c >= 'A' && c <= 'Z'
+	}
 	for i := 0; i+len(old) <= len(s); i++ {
 		if s[i:i+len(old)] == old && (i == 0 || !isW(s[i-1])) && (i+len(old) == len(s) || !isW(s[i+len(old)])) {
 			return s[:i] + new + s[i+len(old):]
